@@ -4,10 +4,13 @@ import copy
 
 from ..prng import Rng
 from ..seams import CLOCK, F, T, ScriptExecutionError, reset_world
+from ..seams import LIB_ERRORS
 from ..oracle import ACCEPT, REJECT, EITHER, slack3, slack_tripped_int, verdict3
 
 PID = 'C16'
-ISOLATE = False
+BATCH = 16
+ISOLATE = True      # one forked process per run: nothing a run does to process-global
+                    # state can reach another run, so every run replays on its own
 RUNS = {'quick': 50000, 'thorough': 1000000}
 COMPONENTS = {
     'real': ['compile_script', 'Script.from_src', 'run_script', 'run_auth_scripts',
@@ -212,7 +215,7 @@ def observe(step, lock, run):
                                        additional_flags=flags)
         except ScriptExecutionError:
             return REJECT if k in ('ctsv', 'cev') else 'BAD:raised_ScriptExecutionError'
-        except Exception as e:
+        except LIB_ERRORS as e:
             return 'BAD:raised_' + type(e).__name__
         items = stack.list()
         if k in ('ctsv', 'cev'):
